@@ -850,6 +850,17 @@ add({"name": "afsp_directory_prefix", "file": "dfs/afsp.cc", "anchor": r"string 
      "rules": [(r"string result\(2, '\.'\);", "struct cstr result; result.n = 2; result.d[0] = '.'; result.d[1] = '.';", 1),
                (r"result\[0\] = directory;", "result.d[0] = directory;", 1)]})
 
+add({"name": "afsp_assemble", "file": "dfs/afsp.cc", "anchor": r"string drive, directory, name;", "region_end": r"\n  \}\s*\n\s*/\* Convert a DFS ambiguous",
+     "sig": "static bool afsp_assemble(void)",
+     "rules": [(r"string drive, directory, name;", "struct astr drive = { T_NONE }, directory = { T_NONE }, name = { T_NONE };", 1),
+               (r"groups\.size\(\)", "groups_n", ">=1"), (r"groups\[(\w+)\]\.empty\(\)", r"group_empty(\1)", ">=1"),
+               (r"= groups\[(\w+)\];", r"= group_at(\1);", ">=1"),
+               (r"drive_prefix\(vol\)", "astr_tag(T_DRIVE_DEFAULT)", ">=0"), (r"directory_prefix\(dir\)", "astr_tag(T_DIR_DEFAULT)", ">=0"),
+               (r"error_message->assign\(invalid\);", "g_diag++;  /* error text dropped */", ">=0"),
+               (r"out->clear\(\);", "out_clear();", 1), (r"out->reserve\([^;]*\);", "/* reserve dropped */", "=0or1"),
+               (r"out->append\((\w+)\);", r"out_append(\1);", ">=1")],
+     "dropped": ["error text"]})
+
 # ---- fsp.cc (C15: `type`/`list`/`dump` find a file by :drive.dir.name): the directory/name split of parse_filename --------
 add({"name": "parse_dir_and_name", "file": "dfs/fsp.cc",
      "anchor": r"if \(name\.size\(\) [<>=!]+ \w+\)\s*\{\s*if \(name\[1\] == '\.'\)", "region_end": r"std::swap\(result, \*p\);",
